@@ -4,6 +4,7 @@ package c11
 import (
 	"bytes"
 	"fmt"
+	"io"
 	"math/big"
 	"sort"
 	"testing"
@@ -35,6 +36,10 @@ type Case struct {
 	// TempoPos: how many of the other tracks come BEFORE the tempo track in the file
 	TempoPos int
 	Queries  []int64
+	// Pipeline: what is done with the value that was read before times are asked for:
+	// bit 0 = a further track (channel messages only) is added with SMF.Add, bit 1 = the value is
+	// exported once with WriteTo. Neither changes the tempo map.
+	Pipeline int `json:",omitempty"`
 }
 
 const horizonUS = 8 * 24 * 3600 * 1e6 // 8 days in microseconds
@@ -126,6 +131,27 @@ func run(c Case) (res ev.Result) {
 	}); p != "" || err != nil {
 		res.Violation = fmt.Sprintf("write/read of the tempo file failed: %v %s", err, p)
 		return
+	}
+	if c.Pipeline != 0 {
+		res.Classes = append(res.Classes, "read-then-add/export-then-query")
+		if p := ev.TryTimeout(ev.Watchdog, func() {
+			if c.Pipeline&1 != 0 {
+				var extra smf.Track
+				extra.Add(7, []byte{0x9F, 64, 1})
+				extra.Close(3)
+				if err := back.Add(extra); err != nil {
+					panic(fmt.Sprintf("SMF.Add: %v", err))
+				}
+			}
+			if c.Pipeline&2 != 0 {
+				if _, err := back.WriteTo(io.Discard); err != nil {
+					panic(fmt.Sprintf("WriteTo: %v", err))
+				}
+			}
+		}); p != "" {
+			res.Violation = "adding a track to / exporting the value that was read: " + p
+			return
+		}
 	}
 	// queries: sorted
 	qs := append([]int64{}, c.Queries...)
@@ -297,11 +323,12 @@ func genCase(t *rapid.T) Case {
 		}
 		c.TempoPos = rapid.IntRange(0, len(c.Others)).Draw(t, "tempoTrackPosition")
 	}
+	c.Pipeline = rapid.SampledFrom([]int{0, 0, 0, 1, 2, 3}).Draw(t, "addOrExportBeforeQuery")
 	return c
 }
 
 var maps = ev.NewCheck("C11", "tempo-maps",
-	"rapid: resolution 1..32767, one tempo track with 0..40 raw FF 51 03 events (microseconds per quarter over 1..2^24-1, biased to extremes), deltas biased to 0 (repeated ticks), first event at tick 0 or later, optional non-tempo metas in between, optional 1..3 further tracks with channel events, placed before and/or after the tempo track; file written and read back; queries = every tempo tick and +-1, random ticks up to min(2^32-1, 8 days of map time); oracle = exact rational integral of the tempo map (120 BPM before the first event, last event at a tick wins): |TimeAt(t) - exact| <= k+1 us (k = distinct-tick segments below t), TimeAt non-decreasing, TracksReader.Do (plain, and with an Only(NoteOn) type filter where program changes carry the delta and the note follows on the same tick) gives AbsTicks per track and AbsMicroSeconds == TimeAt(AbsTicks); non-trivial = a query tick beyond the second tempo segment; distinct by case hash",
+	"rapid: resolution 1..32767, one tempo track with 0..40 raw FF 51 03 events (microseconds per quarter over 1..2^24-1, biased to extremes), deltas biased to 0 (repeated ticks), first event at tick 0 or later, optional non-tempo metas in between, optional 1..3 further tracks with channel events, placed before and/or after the tempo track; file written and read back, in half of the cases a further track is added to the value that was read (SMF.Add) and/or it is exported once (WriteTo) before any time is asked for; queries = every tempo tick and +-1, random ticks up to min(2^32-1, 8 days of map time); oracle = exact rational integral of the tempo map (120 BPM before the first event, last event at a tick wins): |TimeAt(t) - exact| <= k+1 us (k = distinct-tick segments below t), TimeAt non-decreasing, TracksReader.Do (plain, and with an Only(NoteOn) type filter where program changes carry the delta and the note follows on the same tick) gives AbsTicks per track and AbsMicroSeconds == TimeAt(AbsTicks); non-trivial = a query tick beyond the second tempo segment; distinct by case hash",
 	genCase, run)
 
 func TestPropTempoMaps(t *testing.T) { maps.Rapid(t, 3000, 60000) }
